@@ -368,3 +368,58 @@ def notation_parameter(ck, rule):
         if given and given[0][1] and sel and dotted(sel[-1][0].left) == "self.config.dtype_notation":
             cfg += 1
     ck.check(cfg >= 1, rule, upd, "without an argument the configured default notation is used", "selector does not test config.dtype_notation on the default path", upd.node)
+
+
+def case_insensitive_groups(ck, rule):
+    """C12.R1b: parsing is case-insensitive in every field: either the input is case-folded before matching, or every comparison of a captured group with a
+    literal is made on the lower-cased group."""
+    prog = ck.prog
+    p = A.fmt_parser(prog)
+    folds = False
+    for n in ast.walk(p.node):
+        if isinstance(n, ast.Assign) and isinstance(n.value, ast.Call) and isinstance(n.value.func, ast.Attribute) and n.value.func.attr in ("casefold", "lower") \
+                and dotted(n.value.func.value) in p.params and any(dotted(t) == dotted(n.value.func.value) for t in n.targets):
+            folds = True
+    if folds:
+        ck.ok(rule, p, "the format string is case-folded before matching (all group comparisons see lower case)")
+        return
+    for pf in fpaths(prog, p):
+        for g in pf.guards:
+            for c in ast.walk(g[0]):
+                if isinstance(c, ast.Compare) and len(c.ops) == 1 and const_str(c.comparators[0]) is not None:
+                    l = c.left
+                    involves_group = any(isinstance(x, ast.Call) and isinstance(x.func, ast.Attribute) and x.func.attr == "group" for x in ast.walk(l))
+                    lowered = any(isinstance(x, ast.Call) and isinstance(x.func, ast.Attribute) and x.func.attr in ("lower", "casefold") for x in ast.walk(l))
+                    if involves_group and not lowered:
+                        ck.bad(rule, p, "every captured field is compared case-insensitively", "%s" % src(c)[:70], g[3],
+                               "an upper-case spelling of that field (e.g. '-COMPLEX') is matched by the pattern but then not recognised")
+        for st in pf.stores:
+            for c in ast.walk(st.value):
+                if isinstance(c, ast.Compare) and len(c.ops) == 1 and const_str(c.comparators[0]) is not None:
+                    l = c.left
+                    involves_group = any(isinstance(x, ast.Call) and isinstance(x.func, ast.Attribute) and x.func.attr == "group" for x in ast.walk(l))
+                    lowered = any(isinstance(x, ast.Call) and isinstance(x.func, ast.Attribute) and x.func.attr in ("lower", "casefold") for x in ast.walk(l))
+                    if involves_group and not lowered:
+                        ck.bad(rule, p, "every captured field is compared case-insensitively", "%s" % src(c)[:70], st.stmt,
+                               "an upper-case spelling of that field is matched by the pattern but then not recognised")
+
+
+def refresh_after_store(ck, rule):
+    """C12.R5: set_val refreshes the dtype string after it stores (the complex suffix depends on the stored value), on every normal path."""
+    prog = ck.prog
+    f = A.funnel(prog)
+    upd = A.dtype_refresher(prog)
+    okn = 0
+    for pf in fpaths(prog, f):
+        if pf.end == "raise":
+            continue
+        si = [i for i, (k, o) in enumerate(pf.order) if k == "store" and o.path == "self.val"]
+        ui = [i for i, (k, o) in enumerate(pf.order) if k == "call" and prog.resolve_call(o.ctx or f, o.raw) == upd.qualname]
+        if not si:
+            continue
+        if not ui or ui[-1] < si[-1]:
+            ck.bad(rule, f, "set_val refreshes the dtype string after storing the value", "normal path without a dtype refresh after the store", f.node,
+                   "an object that becomes complex (or is first filled) keeps a stale dtype string: constructing with dtype=x.dtype reproduces another format")
+            return
+        okn += 1
+    ck.ok(rule, f, "dtype refresh follows the store on all %d normal paths of set_val" % okn)
